@@ -1302,13 +1302,52 @@ fn p10(p: &mut ProbeReport, r: &mut Rng, budget: usize) {
         }
         p.notes.insert("api_exhaustive_sequences".into(), total);
     }
+    // corpus (seeded change C10-f): ordinary English words that are close in letters but not in spelling, asked before
+    // and after a prefix query that meets a 22-letter word for the first time on this thread
+    {
+        let recs: Vec<(usize, String, usize)> = vec![(10, "Leather passport holder".into(), 50), (20, "Lumbar support cushion".into(), 40), (30, "Canvas shoulder bag".into(), 30),
+            (40, "Wooden toy soldier".into(), 20), (50, "Treasure chest money box".into(), 10), (60, "Retro tape measure".into(), 60), (70, "Electroencephalography pocket guide".into(), 70)];
+        let queries = ["passport ", "shoulder ", "treasure ", "support ", "soldier", "measure", ""];
+        let recs2 = recs.clone();
+        let outcome = std::thread::spawn(move || {
+            let markers = ("[".to_string(), "]".to_string());
+            let st = Scn { lang: "en".into(), recs: recs2.clone(), limit: 10 }.build();
+            let mut ops: Vec<Op> = vec![];
+            for round in 0..2 {
+                for q in queries.iter() {
+                    ops.push(Op::Search(q.to_string()));
+                    let (got, want) = (search_results(&st, q), fresh_thread_search("en", &recs2, 10, &markers, q));
+                    if got != want { return Some((format!("search {:?} returns {:?} but a fresh store on a fresh thread returns {:?} ({} a prefix query met the 22-letter word)", q, got, want, if round == 0 { "before" } else { "after" }), ops)); }
+                }
+                let _ = search_results(&st, "electroenc"); ops.push(Op::Search("electroenc".into()));
+            }
+            None
+        }).join();
+        p.eval("growth-corpus|en", true);
+        match outcome {
+            Ok(None) => {}
+            Ok(Some((what, ops))) => p.fail(what, Scn { lang: "en".into(), recs: recs.clone(), limit: 10 }.case("c10-growth-corpus", ops)),
+            Err(_) => p.fail("the growth corpus sequence panicked".into(), Scn { lang: "en".into(), recs: recs.clone(), limit: 10 }.case("c10-growth-corpus", vec![])),
+        }
+    }
     // scratch state that grows: on a thread whose per-thread buffers are still at their initial capacity, ordinary
     // queries are answered, then a record with a very long word is added and asked for (the buffers grow), then the
     // ordinary queries are repeated; every answer is compared with a fresh store on a fresh thread. Three growth steps.
     for (li, code) in LANGS.iter().enumerate() {
         let v = vocab(code);
         let mut recs: Vec<(usize, String, usize)> = (0..8).map(|i| (i + 1, v.title(r), 1000 - 10 * i)).collect();
-        let queries: Vec<String> = (0..10).map(|_| { let t = r.pick(&recs).1.clone(); query_for(&v, r, &t) }).collect();
+        // a word and three look-alikes in which two or three letters are replaced by letters the word does not contain:
+        // far beyond the typo budget, so asking for the word must keep returning the word alone
+        let base: Vec<char> = { let mut b: Vec<char> = vec![]; while b.len() < 7 { let c = v.letters[(b.len() * 3 + li) % v.letters.len().min(20)]; if !b.contains(&c) { b.push(c); } else { b.push(v.letters[(b.len() * 5 + 11 + li) % v.letters.len().min(20)]); } } b };
+        let absent: Vec<char> = v.letters.iter().cloned().filter(|c| !base.contains(c)).collect();
+        recs.push((20, base.iter().collect(), 500));
+        for k in 0..3usize { let mut w = base.clone(); for j in 0..(2 + k % 2) { let pos = (1 + 2 * j + k) % w.len(); w[pos] = absent[(k * 3 + j) % absent.len()]; } recs.push((21 + k, w.iter().collect(), 490 - k)); }
+        // … and three rearrangements of the same letters (reversed, rotated by two, rotated by three)
+        { let mut w = base.clone(); w.reverse(); recs.push((24, w.iter().collect(), 480)); }
+        for (k, rot) in [2usize, 3].iter().enumerate() { let mut w = base.clone(); w.rotate_left(*rot); recs.push((25 + k, w.iter().collect(), 470 - k)); }
+        let mut queries: Vec<String> = (0..10).map(|_| { let t = r.pick(&recs).1.clone(); query_for(&v, r, &t) }).collect();
+        queries.push(format!("{} ", base.iter().collect::<String>()));
+        queries.push(base.iter().collect::<String>());
         let longs: Vec<String> = [22usize, 36, 58].iter().map(|n| (0..*n).map(|k| if k % 7 == 3 { *r.pick(&v.letters) } else { v.letters[(k * 5 + li) % v.letters.len()] }).collect()).collect();
         let code_s = code.to_string();
         let (recs0, queries0, longs0) = (recs.clone(), queries.clone(), longs.clone());
